@@ -35,6 +35,8 @@ trusted_base = [
 ASSUMPTIONS = ["CPython deque / generator / itertools.accumulate semantics as documented",
                "window sizes are Python ints; lags are ints or floats"]
 
+HAIR = Fraction(1, 2 ** 40)
+SCALES = [Fraction(1, 10 ** 7), Fraction(1, 10 ** 15), Fraction(10 ** 12)]
 POOL = [Fraction(a, b) for a, b in [(0, 1), (1, 1), (-1, 1), (1, 2), (-1, 2), (2, 1), (-2, 1), (1, 3), (-2, 3), (3, 2),
                                     (5, 2), (-7, 3), (3, 1), (-3, 1), (1, 4), (7, 1), (-5, 4), (9, 4)]]
 MAVS = ["deque", "recursive", "fir"]
@@ -58,11 +60,58 @@ def Qs(ps):
   return [ExactQ(F(p)) for p in ps]
 
 
+def dyadic(p):
+  return p[1] & (p[1] - 1) == 0
+
+
+def as_kind(p, kind):
+  """the exact rational p = [n, d] as a Python number of the given kind (exactly representable by construction)"""
+  if kind == "mixed":
+    kind = "int" if p[1] == 1 else ("float" if dyadic(p) else "frac")
+  if kind == "q":
+    return ExactQ(F(p))
+  if kind == "frac":
+    return F(p)
+  if kind == "int":
+    assert p[1] == 1
+    return int(p[0])
+  if kind == "bool":
+    assert p[1] == 1 and p[0] in (0, 1)
+    return bool(p[0])
+  assert kind == "float" and dyadic(p) and abs(p[0]) < 2 ** 50
+  return float(F(p))
+
+
+def Ks(ps, kind):
+  return [as_kind(p, kind) for p in ps]
+
+
+def kind_xs(rng, kind, n):
+  """n exact rationals representable in the sample kind"""
+  if kind == "bool":
+    return [[rng.randrange(0, 2), 1] for _ in range(n)]
+  if kind == "int":
+    return [[rng.randrange(-6, 7), 1] for _ in range(n)]
+  if kind == "float":
+    return [fr(Fraction(rng.randrange(-24, 25), rng.choice([1, 2, 4, 8]))) for _ in range(n)]
+  if kind == "mixed":
+    return [fr(Fraction(rng.randrange(-12, 13), rng.choice([1, 1, 2, 3, 4]))) for _ in range(n)]
+  return [fr(Fraction(rng.randrange(-12, 13), rng.choice([1, 2, 3, 5]))) for _ in range(n)]
+
+
 def q(p):
   return "(qc (%d) %d)" % (p[0], p[1])
 
 
 def qlist(ps):
+  if len(ps) > 50:   # long lists: numerators over a common denominator (Check.dl), much faster to elaborate
+    d = 1
+    for p in ps:
+      d = d * p[1] // math.gcd(d, p[1])
+      if d > 10 ** 40:
+        break
+    else:
+      return "(dl %d [%s]%%Z)" % (d, "; ".join(str(p[0] * (d // p[1])) for p in ps))
   return L.lst([q(p) for p in ps])
 
 
@@ -102,6 +151,8 @@ def gen_mav(tier, rng):
     for k in range(n // 7 + 1):
       xs = rand_xs(rng) if k else rand_xs(rng, size + 3)
       zero = zeros[k % len(zeros)] if k < 2 * len(zeros) else rng.choice(zeros)
+      sc = rng.choice([1] * 7 + SCALES) if k > 3 else 1   # the mean is scale free
+      xs, zero = [fr(F(x) * sc) for x in xs], zero and fr(F(zero) * sc)
       for s in MAVS:
         via = MAV_VIA[s][k % len(MAV_VIA[s])]
         yield {"s": s, "via": via, "size": size, "zero": zero, "xs": xs,
@@ -124,7 +175,7 @@ BIG = [15, 16, 17, 31, 32, 33, 63, 64, 65, 70]   # beyond the first few: powers 
 
 
 def gen_mav_big(tier, rng):
-  for size in BIG:
+  for size in (BIG if tier != "quick" else [16, 17, 32, 33, 64, 65]):
     for k in range(1 if tier == "quick" else 4):
       xs = [fr(Fraction(rng.randrange(-9, 10), rng.choice([1, 1, 2]))) for _ in range(size + 5)]
       zero = [[2, 1], [0, 1], [-1, 3]][(size + k) % 3]
@@ -132,12 +183,23 @@ def gen_mav_big(tier, rng):
         yield {"s": s, "size": size, "zero": zero, "xs": xs, "tags": ["mav", s, "big", "size=%d" % size]}
 
 
+def gen_mav_kinds(tier, rng):
+  # raw Python ints / dyadic floats as samples (window size a power of two: the float arithmetic is exact)
+  for size in (1, 2, 4, 8):
+    for kind in ("int", "float", "bool"):
+      for k in range(1 if tier == "quick" else 8):
+        for s in MAVS:
+          yield {"s": s, "size": size, "kind": kind, "zero": [[0, 1], [1, 1], None][(k + size) % 3],
+                 "xs": kind_xs(rng, kind, rng.randrange(size + 2, size + 9)), "tags": ["mav", s, "kind=" + kind]}
+
+
 def run_mav(c):
   import audiolazy
   try:
     f = _strategy(audiolazy.maverage, c.get("via", c["s"]))(c["size"])
-    xs = feed(c, Qs(c["xs"]))
-    out = f(xs) if c["zero"] is None else f(xs, zero=ExactQ(F(c["zero"])))
+    kind = c.get("kind", "q")
+    xs = feed(c, Ks(c["xs"], kind))
+    out = f(xs) if c["zero"] is None else f(xs, zero=as_kind(c["zero"], "float" if kind == "bool" else kind))
     return {"ok": [fr(to_frac(v)) for v in out]}
   except Exception as e:
     return {"raise": type(e).__name__}
@@ -310,7 +372,7 @@ CUTOFFS = [None, 0.3, 1.0, math.pi, math.pi / 2, 0.01, 0.0, math.pi - 1e-9, 1e-9
 
 def gen_env_of(s):
   def gen_env(tier, rng):
-    n = 3 if tier == "quick" else 30
+    n = 2 if tier == "quick" else 30
     for ci, cutoff in enumerate(CUTOFFS):
       if cutoff is not None and cutoff < 1e-6 and s == "rms":
         continue  # the all-zero float output 0.0 ** .5 is a float, not a symbolic root
@@ -413,24 +475,38 @@ def gen_clip(tier, rng):
                "tags": ["clip", "random", "none" if lo is None or hi is None else "both"]}
   for _ in range(4 if tier == "quick" else 40):
     yield {"default": True, "low": [-1, 1], "high": [1, 1], "xs": rand_xs(rng), "tags": ["clip", "default"]}
+  # sample number kinds x limit kinds (non-integer and negative limits with int / bool / Fraction / float samples)
+  klims = [None, [5, 2], [-5, 2], [1, 2], [-1, 2], [7, 4], [-2, 1], [3, 1], [1, 3], [-7, 3]]
+  for sk in ("int", "bool", "float", "frac", "mixed", "q"):
+    for lk in ("float", "frac", "q", "int"):
+      ok = [l for l in klims if l is None or (lk == "float" and dyadic(l)) or (lk == "int" and l[1] == 1) or lk in ("frac", "q")]
+      for lo in ok:
+        for hi in ok:
+          if (tier == "quick" and rng.random() > 0.2) or (lo and hi and F(hi) < F(lo) and rng.random() > 0.15):
+            continue
+          yield {"low": lo, "high": hi, "kind": sk, "lkind": lk, "xs": kind_xs(rng, sk, rng.randrange(3, 9)),
+                 "tags": ["clip", "kinds", "samples=" + sk, "limits=" + lk]}
   for _ in range(30 if tier == "quick" else 600):
     lo = rng.choice([None, fr(rng.choice(POOL))])
     hi = rng.choice([None, fr(rng.choice(POOL))])
     xs = rand_xs(rng)
-    if lo: xs.append(lo)
-    if hi: xs.insert(0, hi)
-    yield {"low": lo, "high": hi, "xs": xs, "tags": ["clip", "random2"]}
+    if lo: xs += [lo, fr(F(lo) + HAIR), fr(F(lo) - HAIR)]
+    if hi: xs = [hi, fr(F(hi) + HAIR), fr(F(hi) - HAIR)] + xs
+    sc = rng.choice([1] * 6 + SCALES)
+    yield {"low": lo and fr(F(lo) * sc), "high": hi and fr(F(hi) * sc), "xs": [fr(F(x) * sc) for x in xs],
+           "tags": ["clip", "random2", "scaled" if sc != 1 else "unscaled"]}
 
 
 def run_clip(c):
   import audiolazy
   try:
-    xs = feed(c, Qs(c["xs"]))
+    xs = feed(c, Ks(c["xs"], c.get("kind", "q")))
     if c.get("default"):
       out = audiolazy.clip(xs)
     else:
-      out = audiolazy.clip(xs, low=None if c["low"] is None else ExactQ(F(c["low"])),
-                           high=None if c["high"] is None else ExactQ(F(c["high"])))
+      lk = c.get("lkind", "q")
+      out = audiolazy.clip(xs, low=None if c["low"] is None else as_kind(c["low"], lk),
+                           high=None if c["high"] is None else as_kind(c["high"], lk))
     return {"ok": [fr(to_frac(v)) for v in out]}
   except Exception as e:
     return {"raise": type(e).__name__}
@@ -458,8 +534,12 @@ def gen_zc(tier, rng):
   for _ in range(200 if tier == "quick" else 4000):
     h = rng.choice(hs)
     pool = POOL + [F(h), -F(h), F(h) + Fraction(1, 8), -F(h) - Fraction(1, 8), Fraction(0)] * 2
-    yield {"h": h, "fs": rng.choice(fss), "xs": rand_xs(rng, None, pool), "feed": rng.choice(["list", "iter", "stream"]),
-           "tags": ["zc", "random", "h=%s" % F(h)]}
+    pool += [F(h) + HAIR, F(h) - HAIR, -F(h) + HAIR, -F(h) - HAIR, HAIR, -HAIR]   # a hair from the thresholds
+    xs = rand_xs(rng, None, pool)
+    sc = rng.choice([1] * 8 + SCALES)   # the definition is scale free: scale samples and hysteresis together
+    yield {"h": fr(F(h) * sc), "fs": rng.choice(fss), "xs": [fr(F(x) * sc) for x in xs],
+           "feed": rng.choice(["list", "iter", "stream"]),
+           "tags": ["zc", "random", "h=%s" % F(h), "scaled" if sc != 1 else "unscaled"]}
   for _ in range(5 if tier == "quick" else 50):
     yield {"default": True, "h": [0, 1], "fs": [0, 1], "xs": rand_xs(rng), "tags": ["zc", "default"]}
   for _ in range(10 if tier == "quick" else 100):   # malformed: negative hysteresis (text silent; holds = recursive definition)
@@ -515,8 +595,10 @@ def gen_uw(tier, rng):
         x += Fraction(rng.randrange(-3, 4)) * abs(F(st)) / 4
       elif r < 0.8:
         x += Fraction(rng.randrange(-9, 10)) * abs(F(st)) / 2 + rng.choice([0, 0, Fraction(1, 7)])
-      else:
+      elif r < 0.9:
         x += rng.choice(POOL)
+      else:   # a jump a hair from max_delta, or from an odd multiple of step/2 (the tie of the two remainders)
+        x += rng.choice([1, -1]) * (rng.choice([abs(F(md)), abs(F(st)) / 2 * rng.choice([1, 3])]) + rng.choice([HAIR, -HAIR, 0]))
       xs.append(fr(x))
     yield {"md": md, "step": st, "xs": xs, "feed": rng.choice(["list", "iter", "stream"]),
            "tags": ["uw", "random", "step>0" if F(st) > 0 else "step<=0"]}
@@ -785,14 +867,49 @@ def nt_live(c, o):
   return len(c["xs"]) >= 3 and len(set(map(tuple, c["xs"]))) >= 2
 
 
+# ------------------------------------------------------------------ long runs (one call, far longer than any internal period)
+# checked with the multi-use case type (one stream); samples as ExactQ or as raw Python ints / dyadic floats
+# (window sizes a power of two there, so that the library's float arithmetic is exact)
+LONG_TOOLS = ([({"t": "mav", "s": s, "size": size}, kind) for s in MAVS for size, kind in ((3, "q"), (4, "int"), (8, "float"))] +
+              [({"t": "amdf", "lag": 2, "size": 4}, "int"), ({"t": "amdf", "lag": float(1.5).hex(), "size": 3}, "q")] +
+              [({"t": "acc", "s": s}, kind) for s, kind in (("accumulate", "int"), ("func", "q"), ("z", "float"))] +
+              [({"t": "zc", "h": [1, 2], "fs": [0, 1]}, "float"), ({"t": "uw", "md": [1, 1], "step": [2, 1]}, "float"),
+               ({"t": "clip", "low": [-5, 2], "high": [5, 2]}, "int")])
+
+
+def gen_long(tier, rng):
+  for i, (tool, kind) in enumerate(LONG_TOOLS):
+    if tier == "quick" and ((tool["t"] == "mav" and tool["s"] != "deque" and (tool["size"], tool["s"]) not in ((4, "recursive"), (3, "fir")))
+                            or (tool["t"] == "amdf" and kind == "q")):
+      continue
+    for rep in range(1 if tier == "quick" else 2):
+      n = rng.randrange(1060, 1200) if tier == "quick" else rng.randrange(2000, 2600 if tool["t"] == "acc" else 5000)
+      zero = ([2, 1] if rep or kind == "q" else [0, 1]) if tool["t"] in ("mav", "amdf") else [0, 1]
+      yield {"tool": tool, "kind": kind, "ins": [[zero, kind_xs(rng, kind, n)]], "tags": ["long", tool["t"], "kind=" + kind]}
+
+
+def run_long(c):
+  zero, xs = c["ins"][0]
+  extra = {}
+  try:
+    call = _mu_build(c["tool"])
+    out = call(Ks(xs, c["kind"]), as_kind(zero, c["kind"]))
+    extra["streams"] = [{"ok": [fr(to_frac(v)) for v in out]}]
+  except Exception as e:
+    extra["streams"] = [{"raise": type(e).__name__}]
+  return extra
+
+
 IMPORTS = "From AL Require Import C20.Model C20.Spec C20.Check."
 FAMILIES = {
+  "long": Family("long", IMPORTS, "mucase", "corr_multi", "holds_long", gen_long, run_long, lit_multi, timeout=60),
   "live": Family("live", IMPORTS, "lvcase", "corr_live", "holds_live", gen_live, run_live, lit_live, nt_live),
   "multi": Family("multi", IMPORTS, "mucase", "corr_multi", "holds_multi", gen_multi, run_multi, lit_multi, nt_multi),
   "lin": Family("lin", IMPORTS, "lincase", "corr_lin", "holds_lin", gen_lin, run_lin, lit_lin, nt_lin),
   "mav": Family("mav", IMPORTS, "mvcase", "corr_mav", "holds_mav", gen_mav, run_mav, lit_mav, nt_mav),
   "mav_big": Family("mav_big", IMPORTS, "mvcase", "corr_mav", "holds_mav", gen_mav_big, run_mav, lit_mav, nt_mav),
   "amdf_big": Family("amdf_big", IMPORTS, "amcase", "corr_amdf", "holds_amdf", gen_amdf_big, run_amdf, lit_amdf, nt_amdf, known_amdf),
+  "mav_kinds": Family("mav_kinds", IMPORTS, "mvcase", "corr_mav", "holds_mav", gen_mav_kinds, run_mav, lit_mav, nt_mav),
   "acc": Family("acc", IMPORTS, "accase", "corr_acc", "holds_acc", gen_acc, run_acc, lit_acc),
   "amdf": Family("amdf", IMPORTS, "amcase", "corr_amdf", "holds_amdf", gen_amdf, run_amdf, lit_amdf, nt_amdf, known_amdf),
   "env_rms": Family("env_rms", IMPORTS, "evcase", "corr_env", "holds_env", gen_env_of("rms"), run_env, lit_env, nt_env),
